@@ -39,5 +39,5 @@ Verdict(c) ==
             ELSE IF c.rest # c.trail THEN "parse: remainder differs from the bytes after the frame"
             ELSE "ok"
 
-Judge == LET v == Verdict(Cases[i]) IN v = "ok" \/ PrintT(<<"REJECTED", Cases[i].id, v>>)
+Judge == LET v == Verdict(Cases[i]) IN v = "ok" \/ PrintT("REJECTED|" \o ToString(Cases[i].id) \o "|" \o v)
 =============================================================================
